@@ -91,6 +91,9 @@ impl WorkspaceIndex {
     pub fn update_from_disk(&mut self, path: &Path) {
         if let Ok(content) = std::fs::read_to_string(path) {
             self.update_from_content(path, &content);
+        } else {
+            // The file only existed in the editor: forget what was indexed for it.
+            self.files.remove(path);
         }
     }
 
